@@ -37,7 +37,7 @@ T = {
          "truth from generator closed forms; tracking assumed correct for the small displacements (C12); conditioning-derived tolerance",
          "TLA+ certificate (Trace_Inference.tla C03Solve) evaluated by TLC on traces of the real pipeline"),
  "C06": (EX, "§6.6", "Two runs of one abstract tissue under two embeddings are keyed by physical interface/cell and compared by TLC (ComparePhys): tensions, pressures equal within conditioning-derived tolerances, coefficient pairs rotate/reflect with the tissue; known defects excuse a pair only through TLA+ matchers.",
-         "tolerances from the true systems of both embeddings; dynamic unit changes not yet covered (see DESIGN)",
+         "tolerances from the true systems of both embeddings; unit changes of time and length (up to 1e6 / 1e-6) with adimensional velocities; a run that raises is compared too",
          "TLA+ equivariance predicate evaluated by TLC on paired traces of the real pipeline"),
  "C07": (MC, "§6.7", "All orientation patterns (2^cells) x random cyclic shifts x renumbering/storage order of small catalogue tissues and random tissues: two runs compared by TLC per physical interface/cell (same internal set, equations, coefficient pairs, tensions, pressures); MC_Equivariance checks exhaustively that the implementation-shaped decomposition operators are invariant under flips, shifts and renumbering.",
          "cells inserted in construction order; tensions compared when the true system is well conditioned",
